@@ -12,6 +12,7 @@ THEOREMS = ["GrpcProofs.C14." + t for t in (
     "second_goaway_larger_is_conn_error_counterexample", "witness_state", "witness_with_fix")] + [
     "GrpcProofs.C14Server." + t for t in (
     "final_goaway_carries_maxStreamID", "final_goaway_id_is_highest_accepted", "none_accepted_after_final_goaway",
+    "no_silent_drop_below_final_goaway", "goaway_waits_for_operateHeaders", "pending_headers_above_final",
     "accepted_served_to_completion_partial", "accepted_served_to_completion_counterexample", "witness_state")]
 DESIGN_REF = "DESIGN.md section 8, C14"
 TECHNIQUE = ("Lean 4 theorems over a per-connection state machine of http2Client (events = critical sections of reader, loopy, "
@@ -39,7 +40,10 @@ LEVEL_NOTE = ("Trusted: Lean kernel; the hand models lean/GrpcModel/Model/Client
               "the model follows the code; the MONITOR (a larger/even second GOAWAY must close the connection) is what reports a tree "
               "without the `return` (F43, fixed by bd29b43). Harness: StaticWindowSize "
               "(no BDP pings), keepalive off on the client / default on the server; stream-level WINDOW_UPDATE frames are not compared; "
-              "server handlers are driven by ops (WriteStatus), request bodies are not sent.")
+              "server handlers are driven by ops (WriteStatus), request bodies are not sent. Tie T3 for the server's admission race: "
+              "http2_server.go is replaced (overlay only, tools/instr/h2server.json) by a copy regenerated from the current source "
+              "whose t.mu / t.maxStreamMu acquisitions announce themselves; the harness parks the reader at operateHeaders' second lock "
+              "(after `t.maxStreamID = streamID`, before the t.state check) while loopy, the 5 s timer, handlers and Close run.")
 GAP = ("goroutine scheduling inside one handler; two NewStream calls woken by the same close(chan) (order decided by the Go runtime; the "
        "generator keeps at most one quota-blocked RPC); grpc.Server.GracefulStop above the transport (it calls Drain on every transport)")
 ASSUMPTIONS = ["handlers of the reader goroutine, loopy items and NewStream attempts are atomic w.r.t. each other (they hold t.mu/controlBuf.mu)",
@@ -52,7 +56,9 @@ RULE = ("directed: k in {0,1,2,3,5} open streams x GOAWAY id in {0, first, middl
         "activeStreams; Close with a stalled loopy: 5 s timer); plus random op sequences (frames of every type incl. malformed, CONTINUATION, app ops, sleeps). "
         "Server (s_drain): k open streams x streams racing into the heads-up window x {ack, 5 s timer, wrong ack}, a stream after the "
         "final GOAWAY, handlers finishing / client RST in random order; the stalled-loopy window between the ack and the final "
-        "GOAWAY; random op sequences incl. illegal stream ids, duplicate Drain, Close, peer EOF. "
+        "GOAWAY; park windows (T3): the HEADERS of a new stream held inside operateHeaders between the id bookkeeping and the "
+        "admission decision while Drain / the fallback timer's final GOAWAY / other handlers / Close run, then released; "
+        "random op sequences incl. illegal stream ids, duplicate Drain, Close, peer EOF, park windows. "
         "A case is non-trivial if a GOAWAY frame was delivered/written while at least one stream was open; distinct = distinct op list.")
 
 
